@@ -603,7 +603,7 @@ pub fn run(ctx: &Ctx) -> Evidence {
     let findings = &ctx.findings;
     ev.rule = "Core driver. Seeded random histories of 2-4 clients that connect, (re-)register grave goods and last wills (overlapping patterns, keys inside other clients' patterns, `#`, `?/#`, `$SYS/...` targets, own and foreign $SYS entries, CAS-protected targets, unparsable registrations), write, subscribe, open publish streams, lock / queue for locks and end their sessions in every order (for 3- and 4-client set-ups ALL permutations of the disconnect order are run). After every session end: an observer of `#` must have seen exactly the expected burials (any order) followed by the last will sets in order, each once; the user keys (value, kind, version) equal the reference model; the ended client's $SYS subtree is empty; every other client's $SYS subtree is byte-identical; subscription count, publish streams, lock holders and queues (read from the core) and the state of every acquire request equal the model; with extended monitoring on, $SYS/locks names exactly the current holders; at the end the surviving subscriptions still deliver. Socket part: sessions of in-process servers (with and without authorization) that registered grave goods, a last will, subscriptions, an ls-subscription and a lock end by clean close, half-written line, garbage, `null`, invalid UTF-8, an unknown message or a refused token; after a later probe session has been cleaned up, the ended session must have been cleaned up too (its $SYS subtree gone, grave goods buried, last will set, lock free). Non-trivial: a session with parsed grave goods AND last will ended while another client was connected; distinct = distinct histories.".into();
     let base = Rng::new(ctx.seed);
-    let histories = ctx.tier.pick(30_000usize, 400_000usize);
+    let histories = ctx.tier.pick(100_000usize, 1_000_000usize);
     let shards = 64usize;
     par_shards(&mut ev, shards, |shard, ev| {
         let runner = Runner::new(false);
